@@ -301,7 +301,9 @@ func genC25(seed uint64, tier string) *Case {
 	c := &Case{P: map[string]int64{}}
 	// (the last four have clauses that overlap: an event matching several of them is still one event)
 	filters := []string{"*", "user", "user:deploy", "member-join", "member-join,user:deploy", "query", "query:q1", "member-leave,member-failed",
-		"user,user:deploy", "*,user", "query,query:q1", "member-join,*"}
+		"user,user:deploy", "*,user", "query,query:q1", "member-join,*",
+		// (names may contain the separator: everything after the first colon is the name)
+		"user:app:deploy", "query:app:deploy,user:app"}
 	n := 6 + g.Intn(30)
 	for i := 0; i < n; i++ {
 		switch x := g.Intn(20); {
@@ -318,7 +320,7 @@ func genC25(seed uint64, tier string) *Case {
 			}
 			c.Steps = append(c.Steps, Step{Op: "stop", K: g.Intn(4)})
 		case x < 12:
-			c.Steps = append(c.Steps, Step{Op: "ev", S: []string{"user", "user", "member", "query"}[g.Intn(4)], T: []string{"deploy", "other", "q1", "q2"}[g.Intn(4)]})
+			c.Steps = append(c.Steps, Step{Op: "ev", S: []string{"user", "user", "member", "query"}[g.Intn(4)], T: []string{"deploy", "other", "q1", "q2", "app:deploy", "app"}[g.Intn(6)]})
 		case x < 15:
 			c.Steps = append(c.Steps, Step{Op: "reply", K: g.Intn(4), S: []string{"ack", "resp"}[g.Intn(2)], T: []string{"n1", "n2", "n3"}[g.Intn(3)]})
 		case x < 18:
